@@ -91,8 +91,15 @@ MODES = {
     'InGen': "def g():\n    yield 1\n    raise ValueError('g')\nlist(g())",
     'InComp': "[1/0 for _ in range(1)]",
     'AfterPrint': "print('before')\nx = 1\nraise KeyError('late')",
+    # compile() failing with something other than a SyntaxError
+    'CompileRecursion': "x = " + "+".join(["1"] * 6000),
+    'Surrogate': "s = '\udc80'",
+    # the exception travels through the student's own cleanup code
+    'Finally': "log = []\ndef avg(v):\n    try:\n        return sum(v) / len(v)\n    finally:\n        log.append('a')\n        log.append('b')\navg([])",
+    'Reraise': "def parse(t):\n    try:\n        n = int(t)\n    except ValueError:\n        print('bad', t)\n        raise\n    return n\nparse('twelve')",
+    'WithBlock': "class M:\n    def __enter__(self): return self\n    def __exit__(self, *a):\n        x = 1\n        return False\nwith M():\n    y = 1\n    1/0\n    z = 2",
 }
-COMPILE_FAIL = ('Syntax', 'Indent', 'Tab', 'NUL', 'UntermStr')
+COMPILE_FAIL = ('Syntax', 'Indent', 'Tab', 'NUL', 'UntermStr', 'CompileRecursion', 'Surrogate')
 SYSTEM_EXIT = ('exit()', 'quit()', 'sys.exit', 'sys.exit msg', 'SystemExit')
 BASE_MODES = {
     'normal': "x = 1\nprint('fine')",
@@ -149,8 +156,8 @@ def reference_outcome(code, filename='answer.py'):
                 not [f for f in traceback.extract_tb(e.__traceback__) if f.filename == filename]:
             return type(e).__name__, e.lineno
         tb = traceback.extract_tb(e.__traceback__)
-        lines = [fr.lineno for fr in tb if fr.filename == filename]
-        return type(e).__name__, (lines[-1] if lines else None)
+        # "raised on a student line": the innermost frame belongs to the student's file
+        return type(e).__name__, (tb[-1].lineno if tb and tb[-1].filename == filename else None)
     return None, None
 
 
